@@ -419,6 +419,44 @@ def r5_no_todo(ctx, rule="C08.R5"):
     ctx.require(rule, 1)
 
 
+def r9_string_growth_is_bounded(ctx, rule="C08.R9"):
+    """`never ends in an internal failure` / `bounded time`: `+` on two strings is the one operator
+    whose result is larger than its operands, in the constant folder as well as in the VM; forty
+    doublings exhaust memory.  Variant::plus must compare the combined length with a limit before it
+    builds the result, and refuse with an error value."""
+    prog = ctx.prog
+    fs = [f for f in prog.fns.values() if f.crate == "rusty_variant" and f.name == "plus" and f.impl
+          and f.impl["self_ty"].endswith("Variant") and f.kind != "closure"]
+    if len(fs) != 1:
+        raise CheckError("anchor Variant::plus: %d matches" % len(fs))
+    f = fs[0]
+    body = f.body
+    pv = mir.Prov(body)
+    builds = [b for b, blk in enumerate(body.blocks) for st in blk["s"]
+              if st["k"] == "assign" and st["r"].get("k") == "agg" and (st["r"].get("adt") or "").endswith("::Variant")
+              and st["r"].get("variant") == "VString" and not body.is_cleanup(b)]
+    if not builds:
+        raise CheckError("%s: Variant::plus builds no VString" % rule)
+    guarded = True
+    for b in builds:
+        ok = False
+        for d in range(body.nblocks):
+            t = body.term(d)
+            if t["k"] != "switch" or not body.dominates(d, b) or t.get("ty") != "bool":
+                continue
+            o = pv.of_operand(t["o"])
+            if o[0] == "bin" and o[1] in ("Gt", "Ge", "Lt", "Le") and \
+                    mir.origin_mentions(o, lambda z: z[0] == "call" and z[1].split("::")[-1] == "len"):
+                ok = True
+        guarded = guarded and ok
+    ctx.decide(guarded, rule, rule + ":Variant::plus:length-checked", f.loc,
+               "the concatenated length is compared with a limit before the string is built",
+               "Variant::plus concatenates two strings without comparing the combined length with a limit: "
+               "`A$ = A$ + A$` in a loop (or a chain of CONSTs in the checker) doubles the string until the "
+               "process runs out of memory instead of ending with error 14")
+    ctx.require(rule, 1)
+
+
 def run(ctx):
     common.install(ctx)
     r1_traversal(ctx)
@@ -428,5 +466,6 @@ def run(ctx):
     r5_no_todo(ctx)
     c05.r6_error_unwinding(ctx, "C08.R7")
     common.r_stack_discipline(ctx, "C08.R8")
+    r9_string_growth_is_bounded(ctx)
     from . import panics
     panics.r_audit(ctx, "C08.R6", scope="backend")
